@@ -657,7 +657,9 @@ def run_tu(job):
 def run_jobs(run, jobs, nproc=16):
     import multiprocessing
     ctx = multiprocessing.get_context("fork")
-    budget = int(os.environ.get("VERIF_E2_WALL_S", "2400"))
+    # wall budget of one batch of translation units: the thorough tier has batches (wide Bcd writes) that need ~20 min on an idle
+    # machine, so it gets more room for a loaded one
+    budget = int(os.environ.get("VERIF_E2_WALL_S", "2400" if getattr(run, "tier", "quick") == "quick" else "10800"))
     with ctx.Pool(min(nproc, max(1, len(jobs)))) as pool:
         pending = [(j["tag"], pool.apply_async(run_tu, (j,))) for j in jobs]
         results = []
